@@ -10,7 +10,7 @@
      generated b          Block::generate has run on b (hash and transaction hashes are those of its content)
    Hashes are free terms (model/Merkle.v): every equation below holds for any hash function;
    every inequation (the refutations) holds up to a collision of the real hash. *)
-From Saito Require Import Base Merkle Lite LiteProofs.
+From Saito Require Import Base Merkle Lite LiteProofs HashBridge LiteBridge.
 
 (* ------------------------------------------------------------------------------------------
    THE PROPERTY AT FULL STRENGTH (false on the pinned code, see the refutations):
@@ -167,6 +167,51 @@ Theorem C18_root_wire_fails : forall b ks l c,
   generate_merkle_root c false false <> generate_merkle_root b false false.
 Proof. exact root_fails_on_wire. Qed.
 
+(* the in-memory commitment statements for an ARBITRARY concrete hash function H (32-byte output) in
+   place of the free terms (proofs/HashBridge.v: ev = the 32 bytes a term stands for; leaf_ok = no
+   transaction's signed bytes are exactly 64 bytes long, the one case in which the real code cannot
+   tell a leaf from an inner node): outside the class the two roots are the same bytes, whatever H is;
+   on the class they differ or the computation exhibits a collision of H *)
+Theorem C18_root_concrete : forall (H : list N -> list N) (bytes_of : N -> list N) b ks l r1 r2,
+  no_spv (b_txs b) -> ~ Known_C18_mem b ks -> lite b ks = Ok l ->
+  generate_merkle_root l false false = Ok r1 -> generate_merkle_root b false false = Ok r2 ->
+  ev H bytes_of r1 = ev H bytes_of r2.
+Proof. exact root_concrete. Qed.
+
+Theorem C18_root_fails_on_merge_concrete : forall (H : list N -> list N) (bytes_of : N -> list N),
+  (forall x, length (H x) = 32%nat) -> (forall a b, bytes_of a = bytes_of b -> a = b) ->
+  forall b ks l r1 r2,
+  no_spv (b_txs b) -> all_hashed (b_txs b) ->
+  aligned_omitted ks (b_txs b) = true -> omitted_multi ks (b_txs b) = false ->
+  lite b ks = Ok l ->
+  generate_merkle_root l false false = Ok r1 -> generate_merkle_root b false false = Ok r2 ->
+  leaf_ok bytes_of r1 -> leaf_ok bytes_of r2 ->
+  ev H bytes_of r1 <> ev H bytes_of r2 \/ Collision H.
+Proof. exact root_fails_on_merge_concrete. Qed.
+
+Theorem C18_root_fails_on_replacements_concrete : forall (H : list N -> list N) (bytes_of : N -> list N),
+  (forall x, length (H x) = 32%nat) -> (forall a b, bytes_of a = bytes_of b -> a = b) ->
+  forall b ks l r1 r2,
+  no_spv (b_txs b) -> all_hashed (b_txs b) ->
+  aligned_omitted ks (b_txs b) = false -> omitted_multi ks (b_txs b) = true ->
+  lite b ks = Ok l ->
+  generate_merkle_root l false false = Ok r1 -> generate_merkle_root b false false = Ok r2 ->
+  leaf_ok bytes_of r1 -> leaf_ok bytes_of r2 ->
+  ev H bytes_of r1 <> ev H bytes_of r2 \/ Collision H.
+Proof. exact root_fails_on_replacements_concrete. Qed.
+
+(* the /lite-block/<hash>/<key> route (network_controller.rs): whatever it serves is the wire form of
+   the lite block of the stored block, for a key list that contains the requester's key and every key
+   the requester registered as a peer; so the theorems above apply to what a light client is sent *)
+Theorem C18_route_served : forall own k peers disk w,
+  route own k peers (Some disk) = RServed (Ok w) ->
+  exists key b l,
+    route_key own k = Some key /\ receive disk = Ok b /\
+    lite b (route_keylist peers key) = Ok l /\ w = wire l /\
+    In key (route_keylist peers key) /\
+    (forall kl, aget key peers = Some kl -> forall x, In x kl -> In x (route_keylist peers key)).
+Proof. exact route_served. Qed.
+
 (* the guards are decidable classes *)
 Theorem C18_known_decidable : forall b ks,
   ({Known_C18_mem b ks} + {~ Known_C18_mem b ks}) *
@@ -211,4 +256,8 @@ Print Assumptions C18_root_wire_refuted.
 Print Assumptions C18_root_fails_on_merge.
 Print Assumptions C18_root_fails_on_replacements.
 Print Assumptions C18_root_wire_fails.
+Print Assumptions C18_root_concrete.
+Print Assumptions C18_root_fails_on_merge_concrete.
+Print Assumptions C18_root_fails_on_replacements_concrete.
+Print Assumptions C18_route_served.
 Print Assumptions C18_known_decidable.
